@@ -35,7 +35,7 @@ partial def dumpE : PyExpr → String
   | .starred e => s!"(star {dumpE e})"
   | .ifExp c t e => s!"(ifexp {dumpE c} {dumpE t} {dumpE e})"
   | .lambda ps b => s!"(lambda {dl ps} {dumpE b})"
-  | .other t => s!"(other {t})"
+  | .other t cs => s!"(other {t} {dl (cs.map dumpE)})"
   | .cstrN l => s!"(s {cpsS l})"
   | .pname pre s => s!"(n {progName pre s})"
   | .pattr e pre s => s!"(attr {dumpE e} {progName pre s})"
@@ -63,7 +63,7 @@ partial def dumpS : PyStmt → String
   | .cont => "(continue)"
   | .pass => "(pass)"
   | .tryS b hs o f => s!"(try {dumpSL b} {dl (hs.map dumpSL)} {dumpSL o} {dumpSL f})"
-  | .other t => s!"(other {t})"
+  | .other t es ss => s!"(other {t} {dl (es.map dumpE)} {dumpSL ss})"
 partial def dumpSL (l : List PyStmt) : String := dl (l.map dumpS)
 end
 
